@@ -63,8 +63,9 @@ type vsHMAC struct{ key, data []byte }
 func vsHMACNew(h func() hash.Hash, key []byte) hash.Hash { return &vsHMAC{key: key} }
 func (m *vsHMAC) Write(p []byte) (int, error)            { m.data = append(m.data, p...); return len(p), nil }
 func (m *vsHMAC) Sum(b []byte) []byte {
-	out := vsUFBytes("hmac512", 64, m.key, m.data)
-	// A1: the left half is a usable scalar (0 < IL < n fails with probability < 2^-127) without a leading zero byte
+	// A1: the left half (the BIP32 tweak IL) is collision-free on the inputs of a run and a usable scalar (0 < IL < n fails
+	// with probability < 2^-127) without a leading zero byte; the right half (chain code) is an arbitrary function
+	out := append(vsUFBytesInj("hmac512L", 32, m.key, m.data), vsUFBytes("hmac512R", 32, m.key, m.data)...)
 	il := new(big.Int).SetBytes(out[:32])
 	vsAssume(il.Sign() != 0 && il.Cmp(vsS256c().N) < 0 && out[0] != 0)
 	return append(b, out...)
@@ -127,12 +128,12 @@ func vsVerify(sig *pocec.Signature, h []byte, pub *pocec.PublicKey) bool {
 func vsB58Encode(b []byte) string { return string(b) }
 func vsB58Decode(s string) []byte { return []byte(s) }
 func vsPubKeyToAccountID(pk *pocec.PublicKey) (string, error) {
-	return "ac" + string(vsHash160(vsSerC(pk))[:4]), nil
+	return "ac" + string(vsHash160(vsSerC(pk))), nil
 }
 func vsNewAddressPubKeyHash(h []byte, net *config.Params) (*massutil.AddressPubKeyHash, error) {
 	return massutil.NewAddressPubKeyHash(h, &config.Params{})
 }
-func vsEncodeAddress(a *massutil.AddressPubKeyHash) string { return "ms" + string(a.ScriptAddress()[:4]) }
+func vsEncodeAddress(a *massutil.AddressPubKeyHash) string { return "ms" + string(a.ScriptAddress()) }
 func vsHDPrivToPub(id []byte) ([]byte, error)             { return []byte{4, 136, 178, 30}, nil }
 func vsValidatePassphrase(p []byte) bool                  { return len(p) >= 6 && len(p) <= 40 }
 
